@@ -11,6 +11,9 @@ type TreeContext struct {
 	cacheClient  TreeCacheClient
 	schemaClient schemaClient.SchemaClientBound
 	actualOwner  string
+	// all the owners that have been the actual owner, hence the
+	// owners of the intents that take part in the transaction
+	involvedOwners map[string]struct{}
 }
 
 func NewTreeContext(cc TreeCacheClient, sc schemaClient.SchemaClientBound, actualOwner string) *TreeContext {
@@ -18,6 +21,9 @@ func NewTreeContext(cc TreeCacheClient, sc schemaClient.SchemaClientBound, actua
 		cacheClient:  cc,
 		schemaClient: sc,
 		actualOwner:  actualOwner,
+		involvedOwners: map[string]struct{}{
+			actualOwner: {},
+		},
 	}
 }
 
@@ -46,4 +52,14 @@ func (t *TreeContext) GetActualOwner() string {
 
 func (t *TreeContext) SetActualOwner(owner string) {
 	t.actualOwner = owner
+	if t.involvedOwners == nil {
+		t.involvedOwners = map[string]struct{}{}
+	}
+	t.involvedOwners[owner] = struct{}{}
+}
+
+// GetInvolvedOwners returns all the owners that have been set as the actual owner.
+// These are the intents of the ongoing transaction, their content is present in the tree.
+func (t *TreeContext) GetInvolvedOwners() map[string]struct{} {
+	return t.involvedOwners
 }
